@@ -208,7 +208,7 @@ def gen_tree(r, max_depth=3, allow_bytes=False, nfiles=None):
     main = main_dir + '/main.asm'
     depth = r.randint(0, max_depth)
     nfiles = nfiles if nfiles is not None else (0 if depth == 0 else r.randint(1, 4))
-    names = ['f1.asm', 'f2.asm', 'f3.asm', 'defs.asm', 'lib.S']
+    names = ['f1.asm', 'f2.asm', 'f3.asm', 'defs.asm', 'lib.S', 'board', 'regs']
     # allocate symbols to files
     nodes = [{'path': main, 'depth': 0, 'children': []}]
     used_paths = {main}
@@ -439,6 +439,17 @@ def add_decoys(r, tree, heavy=True):
                     continue
                 tree.setdefault('decoys', {})[p] = 'DECOY%d = %d\n    addi x0, x0, %d\n    nop\n' % (n, n, n % 7)
                 n += 1
+    # a name without an extension is a complete name: NAME.asm / NAME.S next to it or on the search path are other files
+    for inc in tree['includes']:
+        base = posixpath.basename(inc['written'])
+        if '.' in base:
+            continue
+        for ext in ('.asm', '.S', '.inc'):
+            for d in list(tree['inc_dirs']) + [posixpath.dirname(inc['target'])]:
+                p = posixpath.normpath(posixpath.join(d, posixpath.dirname(inc['written']), base + ext))
+                if p not in tree['files'] and p not in (tree.get('decoys') or {}) and r.random() < 0.6:
+                    tree.setdefault('decoys', {})[p] = 'EXTDECOY%d = %d\n    andi t1, t1, %d\n' % (n, n, n % 9)
+                    n += 1
     # names that differ by case only are different names: put such look-alikes right where the search looks
     for inc in tree['includes']:
         base = posixpath.basename(inc['written'])
@@ -560,7 +571,7 @@ FAULTS = {
                          'dw 1e3', 'addi t0, t0, 3 / 1', 'li t0, 2.0', 'align 1.5', 'align foo', 'KX = (1, 2)', 'KX = None', 'shorts 0x1g',
                          'KX = [1]', 'lui t0, 1.0', 'pack <I 1.5', 'pack <f 1', "KX = 'ab'"],
     'error-directive': ['error this board is not supported', 'error', 'error  ', '    error indented message', 'error "quoted" # not a comment'],
-    'missing-include': ['include nofile.asm', 'include "missing dir/nofile.asm"', 'include sub/nofile.asm', 'include ../nofile.asm',
+    'missing-include': ['include {self}/nofile.asm', 'include {self}/', 'include %s.asm' % ('n' * 300), 'include nofile.asm', 'include "missing dir/nofile.asm"', 'include sub/nofile.asm', 'include ../nofile.asm',
                         'include_bytes nofile.bin', 'include nofile.asm # comment', 'include', 'include a b', 'include_bytes'],
     'duplicate-label': ['{dup}:'],
     # position-dependent: the same text is valid near its target and out of range 5000 bytes further down
@@ -587,8 +598,10 @@ def plant_fault(r, tree, cls, line_text=None, target_file=None, where=None):
         return path, len(body), line
     aliases = tree['symbols'].get('regconsts') or []
     text = text.replace('{label}', r.choice(labels)).replace('{dup}', r.choice(labels)).replace('{r}', r.choice(aliases) if aliases else 't0')
+    self_name = posixpath.basename(target_file or tree['main'])
     paths = sorted(tree['files'])
     path = target_file or r.choice(paths)
+    text = text.replace('{self}', posixpath.basename(path))        # a path THROUGH a regular file: it can name nothing
     crlf_file = '\r\n' in tree['files'][path]
     lines = tree['files'][path].replace('\r\n', '\n').split('\n')
     # valid insertion points: never inside a data block (between a data directive and its align)
